@@ -36,6 +36,10 @@ THEOREMS = [
     "C02_ready_wf",
     "C02_history_wf",
     "C02_cell_update",
+    "C02_cell_history",
+    "C02_ops_setOperator",
+    "C02_setOperator_write",
+    "C02_history_edits",
     "C02_ops_surface",
     "C02_ops_cell",
     "C02_ops_and",
@@ -81,6 +85,8 @@ def model_request(case, impl):
                 break  # the implementation stopped before this step
         elif "x" in op:
             m["x"] = geom.model_expr(op["x"])
+        if "o" in op:
+            m["o"] = op["o"]
         ops.append(m)
     return {"op": "model", "init": init, "ctr": impl["ctr"], "ops": ops}
 
@@ -98,7 +104,7 @@ def judge(case, impl, den):
     origin = case["origin"]
     if "rejected" in impl:
         return None  # acceptance of a sentence is property C12's; nothing was read
-    exp = geom.expected_tables(case)
+    exp = geom.expected_tables(case, impl)
     base = {"origin": origin}
     if origin == "parsed":
         r = den["read"]
@@ -331,6 +337,8 @@ def nontrivial(case):
     if nt(case["init"]):
         return True
     kinds = [op["k"] for op in case["ops"] if op["k"] != "write"]
+    if "setop" in kinds:
+        return True
     return len(kinds) >= 1 and (len(set(k.replace("r", "").replace("i", "") for k in kinds)) > 1 or any(nt(op["x"]) for op in case["ops"] if "x" in op))
 
 
@@ -446,7 +454,7 @@ def run(chk):
         "a case is a geometry AST (surfaces 1-9 with sense '', '+', '-', cell complements #91-#93, intersection, union, "
         "complement, redundant parentheses to depth 3) either rendered to MCNP text with random padding, $ and c comments, "
         "line breaks and & (origin parsed) or built with the Python operators (origin scratch), followed by up to 8 of "
-        "&, |, ~, &=, |= (both operand orders) with fresh operands and interleaved writes, always ending in a write. "
+        "&, |, ~, &=, |= (both operand orders) with fresh operands, the operator setter on a binary root (4 % of the steps) and interleaved writes, always ending in a write. "
         "Non-trivial: a union below an intersection or a complement of a non-cell somewhere, or edits of two different kinds. "
         "Distinct = distinct canonical JSON."
     )
